@@ -28,7 +28,7 @@ def group(printed):
 def run(tier, seed):
     run = Run("C12", tier, seed)
     # exhaustive over pairs of reads on a reduced alphabet, simulated longer histories on the full one
-    small = [q for q in E.CACHE_QUERIES if q["it"] in ([4], [4, 8], [0, 4, 8, 12]) and q["vars"] in (["betax"], ["betax", "betay", "betaz"], ["betay", "alp"])]
+    small = [q for q in E.CACHE_QUERIES if q["it"] in ([4], [4, 8], [0, 4, 8, 12]) and q["names"] in (["betax"], ["betaup3"], ["betay", "alpha"], ["betaup3", "betax"])]
     r1 = E.run_readcache(2, queries=small)
     run.add_tlc(r1, f"ReadCache: all sequences of 2 reads over {len(small)} queries")
     r2 = E.run_readcache(4, simulate=(12 if tier == "quick" else 150), seed=seed + 1)
@@ -59,8 +59,8 @@ def run(tier, seed):
     if groups:
         g = groups[len(groups) // 2]
         run.sample({"history": g[-1]["hist"], "expected_cache_entries": g[-1]["cache"][:5], "expected_result": g[-1]["result"]})
-    run.rule = ("read histories enumerated by TLC over ReadCache.tla (iteration subsets, component vs tensor requests, two levels, cached and uncached "
-                "calls interleaved) are replayed on generated simulation directories in the four layouts (2 restarts with an overlapping iteration, 2 "
+    run.rule = ("read histories enumerated by TLC over ReadCache.tla (iteration subsets whose hash-set order is not ascending, component, tensor and mixed tensor+component "
+                "requests, two levels, cached and uncached calls interleaved) are replayed on generated simulation directories in the four layouts (2 restarts with an overlapping iteration, 2 "
                 "chunks); after EVERY call each returned array is compared with the stored data and EVERY dataset of every cache file is decoded and "
                 "compared with the data of the (variable, iteration, level, restart) it is filed under. Non-trivial = >= 2 reads with a cached read first")
     run.assumptions = ["the simulation directory does not change between reads", "values encode (variable, restart, iteration, level, position)"]
